@@ -488,6 +488,25 @@ def _sym_inv(a):
     return arrays._wrap(out, arrays.FLOAT)
 
 
+def _sym_norm(x, ord=None, axis=None, keepdims=False):
+    """vector norms (ord None/2, 1, inf) of a symbolic array along one axis (or of the flattened array)"""
+    a = asnd(x)
+    if not arrays.has_sym(raw(a)):
+        return fallback(_np.linalg.norm, "numpy.linalg.norm", (x,), dict(ord=ord, axis=axis, keepdims=keepdims))
+    if isinstance(axis, tuple) or (axis is None and a.ndim > 1 and ord is not None):
+        raise Unencodable("matrix norm of a symbolic array")
+    ab = FACADE.abs(a)
+    if ord in (None, 2):
+        r = FACADE.sqrt(FACADE.sum(ab * ab, axis=axis, keepdims=keepdims))
+    elif ord == 1:
+        r = FACADE.sum(ab, axis=axis, keepdims=keepdims)
+    elif ord == _np.inf:
+        r = FACADE.max(ab, axis=axis, keepdims=keepdims)
+    else:
+        raise Unencodable(f"norm of a symbolic array with ord={ord!r}")
+    return r
+
+
 class _SubFacade:
     def __init__(self, mod, name):
         self._mod = mod
@@ -496,6 +515,8 @@ class _SubFacade:
     def __getattr__(self, name):
         if self._name == "numpy.linalg" and name == "inv":
             return _sym_inv
+        if self._name == "numpy.linalg" and name == "norm":
+            return _sym_norm
         attr = getattr(self._mod, name)
         if callable(attr) and not isinstance(attr, type):
             def r(*a, **kw):
